@@ -29,7 +29,11 @@ func (e *Environment) AddAttributes(attributes map[string]*types.Item) error {
 			return err
 		}
 
-		e.Set(name, obj)
+		// the attributes of the item (and the :values) are stored under their own names: expression
+		// attribute names are placeholders of the expression text, an item attribute that happens to
+		// be called "#n" is not one of them
+		e.store[name] = obj
+		delete(e.removed, name)
 	}
 
 	return nil
@@ -176,10 +180,6 @@ func (e *Environment) Apply(item map[string]*types.Item, aliases map[string]stri
 	for k, v := range e.store {
 		if _, ok := exclude[k]; ok {
 			continue
-		}
-
-		if alias, ok := aliases[k]; ok {
-			k = alias
 		}
 
 		if orig, ok := item[k]; ok && orig != nil {
